@@ -8,6 +8,7 @@ use super::c03::rich_case;
 use super::common::*;
 use crate::core::*;
 use crate::shim::*;
+use crate::transport::Sched;
 use crate::util::*;
 use crate::wire::{self, Kind};
 
@@ -182,8 +183,61 @@ pub fn run(ctx: &Ctx) -> Report {
         });
         rep.merge(r);
     }
+    // ---- commands of 16 MiB and more (several wire packets) in lock-step: the client sends the next
+    //      command only after the reply, so a server that does not answer once the last fragment
+    //      is in, or that waits for "more", is caught reading while it owes a reply
+    if !ctx.miri {
+        let mut lens: Vec<(usize, u8)> = vec![(wire::MAXP + 999, 0), (wire::MAXP, 0), (wire::MAXP + 10, 1)];
+        if ctx.thorough {
+            lens.extend_from_slice(&[(wire::MAXP - 1, 0), (wire::MAXP + 1, 0), (2 * wire::MAXP + 5000, 0), (2 * wire::MAXP, 1), (wire::MAXP + 70_000, 1), (wire::MAXP + 5000, 0), (wire::MAXP + 3000, 0)]);
+        }
+        let nsched = if ctx.thorough { 4 } else { 2 };
+        let r = par_cases(ctx, "C12", "multi-packet-command", (lens.len() * nsched) as u64, |rng, i, rep| {
+            let (plen, kind) = lens[i as usize / nsched];
+            let mut body = Vec::new();
+            let (cmds, scripts) = if kind == 0 {
+                stream_fill(&mut body, ctx.seed, 500 + i, plen - 1, true);
+                (vec![Cmd::ping(), Cmd::query(&body), Cmd::ping(), Cmd::query(b"after"), Cmd::ping()], vec![Script::Q(QProg::completed(1, 0)), Script::Q(QProg::completed(2, 0))])
+            } else {
+                stream_fill(&mut body, ctx.seed, 500 + i, plen - 7, false);
+                let pcol = simple_col("p", msql_srv::ColumnType::MYSQL_TYPE_BLOB);
+                (
+                    vec![Cmd::prepare(b"p"), Cmd::long_data(1, 0, &body), Cmd::execute(1, &[wire::Param { typ: wire::T_BLOB, unsigned: false, value: None, long: true }], true), Cmd::ping()],
+                    vec![Script::PrepOk { id: 1, params: vec![pcol], cols: vec![] }, Script::Q(QProg::completed(3, 0))],
+                )
+            };
+            let mut case = Case::new(cmds, scripts);
+            case.arrival = Arrival::Pipelined(1);
+            case.log_reads = true;
+            // reads: one big gulp, MiB-sized pieces, or pieces that end a little after the fragment boundary
+            case.sched = match i as usize % nsched {
+                0 => Sched { cuts: vec![], cycle: vec![1 << 26] },
+                1 => Sched { cuts: vec![], cycle: vec![(1 << 20) + rng.range(1, 5000) as usize] },
+                2 => Sched { cuts: vec![], cycle: vec![wire::MAXP + 4 + 40 + rng.range(1, 900) as usize, 1000] },
+                _ => Sched { cuts: vec![], cycle: vec![(3 << 20) + 17, 4096, 1 << 22] },
+            };
+            let obs = run_case(&case);
+            rep.evaluations += 1;
+            rep.counters.inc("deadlock_checks_armed");
+            rep.counters.inc("multi_packet_commands_in_lock_step");
+            rep.counters.class(format!("{} of {} bytes in lock-step, read pattern {}", if kind == 0 { "query" } else { "long data + execute" }, len_class(plen), i as usize % nsched));
+            let d = || J::obj().set("command", if kind == 0 { "COM_QUERY" } else { "COM_STMT_SEND_LONG_DATA then EXECUTE" }).set("payload_bytes", plen).set("arrival", "lock-step").set("sched", case.sched.describe()).set("outcome", obs.outcome.describe());
+            if i == 0 {
+                rep.sample(d());
+            }
+            check(&obs, rep, &d);
+            // and it was really served
+            let want = if kind == 0 { 2 } else { 2 };
+            let got = obs.log.cbs.iter().filter(|c| matches!(c.kind, CbKind::Query(_) | CbKind::Execute { .. } | CbKind::Prepare(_))).count();
+            if got != want && obs.outcome == Outcome::Ok {
+                rep.violations.push(viol("C12", "C12 multi-packet-command-not-served".into(), format!("{} callbacks for a conversation with {} reply-expecting shim commands", got, want), d()));
+            }
+        });
+        rep.merge(r);
+    }
     rep.merge(super::mega::run(ctx, "C12", 1500, 60000));
     if ctx.strict() {
+        rep.require("multi_packet_commands_in_lock_step", 3);
         rep.require("reads_checked", 1000);
         rep.require("deadlock_checks_armed", 10);
         rep.require("reads_delivering_several_commands", 10);
